@@ -1,6 +1,11 @@
 import Proofs.Lemmas.BeaconBlock
 import Proofs.Lemmas.BeaconBlockM
 import Proofs.Lemmas.BeaconBlockWF
+import Proofs.Lemmas.BeaconBlockOps
+import Proofs.Lemmas.BeaconBlockSlashInv
+import Proofs.Lemmas.BeaconBlockCompose
+import Proofs.Lemmas.BeaconBlockSteps
+import Proofs.Properties.C02
 /-!
 # C01 — block state transition equals the consensus spec for every valid block
 
@@ -32,20 +37,33 @@ the model column of modes `c01`/`c03`): `header_eq`, `randao_eq`, `eth1vote_eq`,
 of `S` that the monadic `S` is compared with on every evaluation), the frame lemma `proposer_frame`, and
 `WF_preserved_block_partial`.
 
-STILL resting on the correspondence Go = `M` = `S` only (no refinement theorem): `process_attestation` of every fork
-(committee look-up, pending attestation / participation flags, proposer reward), `slash_validator` and the proposer /
-attester slashings as whole operations (their pieces ZigZagJoin, slashable predicate, indexed check, exit scan are proved),
-the composition of the operation theorems into `process_block` (each operation theorem takes the context facts for the
-CURRENT state; `proposer_frame` is the lemma that carries them across operations, the other context fields need the
-analogous frames), block signature and state root.
+Round 3 added: `process_attestation` of every fork (`attestation_phase0_eq`, `attestation_altair_eq`, `attestation_deneb_eq`),
+`slash_validator` (`slash_eq`, and the link `slash_link` between the monadic `S` and its pure core), both slashings as
+whole operations (`proposerSlashing_eq`, `attesterSlashing_eq`: the hypotheses of every single `slash_validator` are
+re-established along the loop by the invariant `SlashInv`), `WF` under slashing (`WF_preserved_slashing`), and the
+COMPOSITION: `processBlock_eq` (every fork; coded order = spec order up to the two places where zrnt asserts later than
+the spec — the operation-count limits and the deposit count —, which the proof commutes), `postSlotTransition_eq`
+(block signature, `process_block`, state root) and `stateTransition_eq` (with C02's full `processSlots_eq` in front).
+
+The composition is stated for an arbitrary invariant `Inv ctx st` and takes `OpSteps cfg block F Inv` as its premise:
+per operation kind, (1) under `Inv` the model simulates the specification and (2) the model's accepted result satisfies
+`Inv` again. (1) is PROVED for every operation kind from the hypotheses of its `_eq` theorem (`sim_header` … `sim_sync`
+in `Proofs/Lemmas/BeaconBlockSteps.lean`, `Sim.of_eq` of the `toRes` equalities). (2), for ONE invariant that implies
+all those hypotheses at once, is proved for voluntary exits, deposits' registry part, BLS changes and slashings
+(`WF_preserved_block_partial`, `WF_preserved_slashing`, `SlashInv_step`) and is NOT proved for the magnitude
+hypotheses across attestations / sync aggregate / withdrawals (balances grow by bounded rewards: a budget argument as in
+`SlashInv`) nor for the context facts C07/C08 provide (committees, total active balance: they do not change inside a
+block, but the frame lemma exists only for the proposer: `proposer_frame`). That is what keeps `M_block_refines_S` a
+`_partial`: see `M_block_refines_S_partial`.
 Each `M` piece is additionally tied to the Go function it models by mode `c01pieces`
 (ZigZagJoin, IsSlashableAttestationData, GetExpectedWithdrawals, InitiateValidatorExit,
 ValidateIndexedAttestationIndicesSet are driven directly with generated inputs).
 -/
 namespace Zrnt.Proofs.C01
 open Zrnt Zrnt.Beacon Zrnt.Beacon.Spec Zrnt.Beacon.BlockImpl Zrnt.Proofs.BeaconBlock
-open Zrnt.Beacon.BlockM (Ctx processHeader processRandaoReveal processEth1Vote processBLSToExecutionChange processExecutionPayload processVoluntaryExit processDeposit)
-open Zrnt.Proofs.BlockM (RegU64 ExitSmall PubkeyOK SameDuties)
+open Zrnt.Beacon.BlockM (Ctx processHeader processRandaoReveal processEth1Vote processBLSToExecutionChange processExecutionPayload processVoluntaryExit processDeposit
+  processAttestationPhase0 processAttestationAltair slashValidator processProposerSlashing processAttesterSlashing processBlock postSlotTransition)
+open Zrnt.Proofs.BlockM (RegU64 ExitSmall PubkeyOK SameDuties SlashSmall SlashInv OpSteps Sim Refines Safe)
 
 /-- (a) `common.ValidatorSet.ZigZagJoin`, called on two strictly increasing index lists (what
 `ValidateIndexedAttestation` has established), calls `onIn` with exactly the spec's
@@ -153,9 +171,8 @@ theorem slashable_eq (a b : AttestationData) :
     isSlashableAttestationData a b = Block.is_slashable_attestation_data a b :=
   BeaconBlock.slashable_eq a b
 
-/-- The proved part of `M_block_refines_S` (see the file header for the full statement and for the
-operations that rest on correspondence only). -/
-theorem M_block_refines_S_partial :
+/-- Round 1: the four places where zrnt's algorithm has another shape than the spec, as one statement. -/
+theorem M_block_pieces :
     (∀ vs target : List Nat, vs.Pairwise (· < ·) → target.Pairwise (· < ·) → (∀ x ∈ vs, x < marker) →
         zigzagIn vs target = .ok (Block.sortedIntersection vs target)) ∧
     (∀ (cfg : Config) (cur activeCount : Nat) (vals : List Validator) (index : Nat),
@@ -315,5 +332,212 @@ example : RegU64 exampleState.validators := by
   rw [this] at hv; simp at hv; subst hv; decide
 example : ExitSmall { (default : Config) with SLOTS_PER_EPOCH := 8 } exampleState := by
   unfold ExitSmall; decide
+
+/-! ## Round 3: attestations, slashings, composition -/
+
+/-- (a) `phase0.ProcessAttestation` = phase0 `process_attestation` (pure core `Block.process_attestation_phase0_pure`,
+which the monadic `S` is compared with on every evaluation). `count`, `committee`, `proposer` are what the context
+answers; C07 says they are the specification's (`sim_attestation_phase0` instantiates them so). -/
+theorem attestation_phase0_eq (cfg : Config) (ctx : Ctx) (s : State) (att : Attestation)
+    (count : Option Nat) (committee : Option (List Nat)) (proposer : Option Nat)
+    (hfork : s.fork = .phase0)
+    (hcc : ctx.committeeCount att.data.target.epoch = count)
+    (hcom : ctx.committee att.data.slot att.data.index = committee)
+    (hprop : ctx.proposer = proposer)
+    (hnd : ∀ c, committee = some c → c.Nodup)
+    (hwf : att.bits_wellformed = true) (hmaxbits : att.aggregation_bits.length ≤ cfg.MAX_VALIDATORS_PER_COMMITTEE)
+    (hspe : 0 < cfg.SLOTS_PER_EPOCH) (hmin : cfg.MIN_ATTESTATION_INCLUSION_DELAY ≤ cfg.SLOTS_PER_EPOCH)
+    (hcur : s.slot + 2 * cfg.SLOTS_PER_EPOCH < 2 ^ 64) :
+    processAttestationPhase0 cfg ctx s att =
+      BlockM.optRes (Block.process_attestation_phase0_pure cfg s att count committee proposer) :=
+  BlockM.attestation_phase0_eq cfg ctx s att count committee proposer hfork hcc hcom hprop hnd hwf hmaxbits hspe hmin hcur
+
+/-- (a) `altair.ProcessAttestation` / `deneb.ProcessAttestation` = altair … deneb `process_attestation` (pure core):
+flag indices (the `integer_squareroot(SLOTS_PER_EPOCH)` bound of the timely-source flag, the target flag with and —
+deneb — without the delay bound, the head flag at the minimal delay, the short-circuit block-root look-ups), the
+participation update (a flag byte only gains the newly set flags and only those count for the numerator), and the
+proposer reward `numerator // ((WEIGHT_DENOMINATOR − PROPOSER_WEIGHT) · WEIGHT_DENOMINATOR // PROPOSER_WEIGHT)`.
+`R` bounds the base rewards so that the wrapping sums of the code are exact. -/
+theorem attestation_altair_eq (cfg : Config) (ctx : Ctx) (s : State) (att : Attestation)
+    (count : Option Nat) (committee : Option (List Nat)) (proposer : Option Nat) (T R : Nat)
+    (hcc : ctx.committeeCount att.data.target.epoch = count)
+    (hcom : ctx.committee att.data.slot att.data.index = committee)
+    (hprop : ctx.proposer = proposer)
+    (hsq : ctx.totalActiveStakeSqRoot = integer_squareroot T)
+    (heb : ctx.effectiveBalances = s.validators.map (·.effective_balance))
+    (hnd : ∀ c, committee = some c → c.Nodup)
+    (hwf : att.bits_wellformed = true) (hmaxbits : att.aggregation_bits.length ≤ cfg.MAX_VALIDATORS_PER_COMMITTEE)
+    (hspe : 0 < cfg.SLOTS_PER_EPOCH) (hmin : cfg.MIN_ATTESTATION_INCLUSION_DELAY ≤ cfg.SLOTS_PER_EPOCH)
+    (hmin1 : 1 ≤ cfg.MIN_ATTESTATION_INCLUSION_DELAY)
+    (hcur : s.slot + 2 * cfg.SLOTS_PER_EPOCH < 2 ^ 64)
+    (hsphr : 2 * cfg.SLOTS_PER_EPOCH ≤ cfg.SLOTS_PER_HISTORICAL_ROOT)
+    (hroots : s.block_roots.length = cfg.SLOTS_PER_HISTORICAL_ROOT)
+    (hslot : s.slot + cfg.SLOTS_PER_HISTORICAL_ROOT < 2 ^ 64)
+    (hnz : cfg.EFFECTIVE_BALANCE_INCREMENT ≠ 0 ∧ integer_squareroot T ≠ 0)
+    (hbrf : cfg.EFFECTIVE_BALANCE_INCREMENT * cfg.BASE_REWARD_FACTOR < 2 ^ 64)
+    (hR : ∀ v ∈ s.validators, v.effective_balance / cfg.EFFECTIVE_BALANCE_INCREMENT *
+      (cfg.EFFECTIVE_BALANCE_INCREMENT * cfg.BASE_REWARD_FACTOR / integer_squareroot T) ≤ R)
+    (hsum : cfg.MAX_VALIDATORS_PER_COMMITTEE * (R * 54) < 2 ^ 64)
+    (hbal : ∀ b ∈ s.balances, b + cfg.MAX_VALIDATORS_PER_COMMITTEE * (R * 54) < 2 ^ 64)
+    (hpc : s.current_epoch_participation.length = s.validators.length ∧ ∀ e ∈ s.current_epoch_participation, e < 256)
+    (hpp : s.previous_epoch_participation.length = s.validators.length ∧ ∀ e ∈ s.previous_epoch_participation, e < 256) :
+    processAttestationAltair cfg ctx s att =
+      BlockM.optRes (Block.process_attestation_altair_pure cfg s att count committee proposer T) :=
+  BlockM.attestation_altair_eq cfg ctx s att count committee proposer T R hcc hcom hprop hsq heb hnd hwf hmaxbits hspe hmin hmin1 hcur
+    hsphr hroots hslot hnz hbrf hR hsum hbal hpc hpp
+
+/-- (a) deneb (EIP-7045): the inclusion window of the specification has no upper bound — an attestation is on time as
+soon as its target epoch is the previous or the current one — and the target flag has no delay bound. The code
+(`attestationTimingOk` with the deneb switch, the `M` of `attestation_altair_eq`) decides exactly that. -/
+theorem attestation_deneb_eq (cfg : Config) (s : State) (data : AttestationData) (hfork : s.fork ≥ .deneb)
+    (hspe : 0 < cfg.SLOTS_PER_EPOCH) (hmin : cfg.MIN_ATTESTATION_INCLUSION_DELAY ≤ cfg.SLOTS_PER_EPOCH)
+    (hcur : s.slot + 2 * cfg.SLOTS_PER_EPOCH < 2 ^ 64) :
+    attestationTimingOk cfg.SLOTS_PER_EPOCH cfg.MIN_ATTESTATION_INCLUSION_DELAY true s.slot data.slot data.target.epoch =
+      ((decide (data.target.epoch = s.slot / cfg.SLOTS_PER_EPOCH - 1) || decide (data.target.epoch = s.slot / cfg.SLOTS_PER_EPOCH)) &&
+        decide (data.target.epoch = data.slot / cfg.SLOTS_PER_EPOCH) &&
+        decide (data.slot + cfg.MIN_ATTESTATION_INCLUSION_DELAY ≤ s.slot)) := by
+  have h := BlockM.timing_pure_eq cfg s data hspe hmin hcur
+  have hd : decide (s.fork ≥ Fork.deneb) = true := by simpa using hfork
+  rw [hd] at h
+  rw [h]
+  unfold Block.attestation_timing_pure
+  simp [hd]
+
+/-- the participation update of one attester, spelled out: a validator that already holds the target flag (byte 2) and
+is attested again with source+target (mask 3) gains the source flag only and only its weight 14 counts; a validator
+with no flags gains both (weights 14 + 26) -/
+example : Block.attestation_flags_one (fun f => [0, 1].contains f) 10 2 0 = (3, 140) ∧
+    Block.attestation_flags_one (fun f => [0, 1].contains f) 10 0 0 = (3, 400) ∧
+    Block.attestation_flags_one (fun f => [0, 1].contains f) 10 3 7 = (3, 7) := by decide
+
+/-- (d) `phase0.SlashValidator(…, nil)` = `slash_validator` (pure core `Block.slash_validator_pure`) -/
+theorem slash_eq (cfg : Config) (ctx : Ctx) (s : State) (idx p : Nat)
+    (hp : ctx.proposer = some p)
+    (hact : ctx.activeCount = (s.validators.filter (is_active_validator · (s.slot / cfg.SLOTS_PER_EPOCH))).length)
+    (hq : cfg.CHURN_LIMIT_QUOTIENT ≠ 0) (hreg : RegU64 s.validators) (hsmall : ExitSmall cfg s) (hs : SlashSmall cfg s)
+    (hz : cfg.EPOCHS_PER_SLASHINGS_VECTOR ≠ 0 ∧ min_slashing_penalty_quotient cfg s.fork ≠ 0 ∧
+          cfg.WHISTLEBLOWER_REWARD_QUOTIENT ≠ 0 ∧ cfg.PROPOSER_REWARD_QUOTIENT ≠ 0) :
+    slashValidator cfg ctx s idx = BlockM.optRes (Block.slash_validator_pure cfg s idx p) :=
+  BlockM.slash_eq cfg ctx s idx p hp hact hq hreg hsmall hs hz
+
+/-- the run-time comparison of the monadic `slash_validator` of `S` with its pure core, PROVED: under the same
+hypotheses the monadic version (exit initiation, slashed flag, slashings vector, penalty, proposer index of the state
+AFTER these writes — equal to the block's proposer by `proposer_frame` —, rewards) is the pure core -/
+theorem slash_link (cfg : Config) (s : State) (i p : Nat)
+    (hp : Block.get_beacon_proposer_index cfg s = .ok p)
+    (hq : cfg.CHURN_LIMIT_QUOTIENT ≠ 0) (hreg : RegU64 s.validators) (hsmall : ExitSmall cfg s) (hs : SlashSmall cfg s)
+    (hz : cfg.EPOCHS_PER_SLASHINGS_VECTOR ≠ 0 ∧ min_slashing_penalty_quotient cfg s.fork ≠ 0 ∧
+          cfg.WHISTLEBLOWER_REWARD_QUOTIENT ≠ 0 ∧ cfg.PROPOSER_REWARD_QUOTIENT ≠ 0) :
+    toRes (Block.slash_validator cfg s i) = BlockM.optRes (Block.slash_validator_pure cfg s i p) :=
+  BlockM.slash_link cfg s i p hp hq hreg hsmall hs hz
+
+/-- non-vacuity of the magnitude hypotheses: a one-validator state with a one-entry slashings vector -/
+def exampleState2 : State :=
+  let d : State := default
+  { d with validators := [default], balances := [0], randao_mixes := [default], slashings := [0] }
+
+example : SlashSmall { (default : Config) with SLOTS_PER_EPOCH := 8, EPOCHS_PER_SLASHINGS_VECTOR := 1 } exampleState2 := by
+  refine ⟨by decide, ?_, ?_, ?_, rfl⟩
+  · intro x hx v hv
+    have hx' : x = 0 := by simpa [exampleState2] using hx
+    have hv' : v = default := by simpa [exampleState2] using hv
+    subst hx'; subst hv'; decide
+  · intro b hb v hv
+    have hb' : b = 0 := by simpa [exampleState2] using hb
+    have hv' : v = default := by simpa [exampleState2] using hv
+    subst hb'; subst hv'; decide
+  · intro v hv
+    have hv' : v = default := by simpa [exampleState2] using hv
+    subst hv'; decide
+
+/-- (d) `phase0.ProcessProposerSlashing` = `process_proposer_slashing` -/
+theorem proposerSlashing_eq (cfg : Config) (ctx : Ctx) (s : State) (ps : ProposerSlashing) (p : Nat)
+    (hp : ctx.proposer = some p) (hps : Block.get_beacon_proposer_index cfg s = .ok p)
+    (hact : ctx.activeCount = (s.validators.filter (is_active_validator · (s.slot / cfg.SLOTS_PER_EPOCH))).length)
+    (hq : cfg.CHURN_LIMIT_QUOTIENT ≠ 0) (hreg : RegU64 s.validators) (hsmall : ExitSmall cfg s) (hs : SlashSmall cfg s)
+    (hz : cfg.EPOCHS_PER_SLASHINGS_VECTOR ≠ 0 ∧ min_slashing_penalty_quotient cfg s.fork ≠ 0 ∧
+          cfg.WHISTLEBLOWER_REWARD_QUOTIENT ≠ 0 ∧ cfg.PROPOSER_REWARD_QUOTIENT ≠ 0) :
+    processProposerSlashing cfg ctx s ps = toRes (Block.process_proposer_slashing cfg s ps) :=
+  BlockM.proposerSlashing_eq cfg ctx s ps p hp hps hact hq hreg hsmall hs hz
+
+/-- (d) `phase0.ProcessAttesterSlashing` = `process_attester_slashing`: slashable-data predicate, both indexed
+attestations, `ZigZagJoin` = the sorted intersection, and the slashings in that order. `SlashInv … k st` bundles what
+`slash_eq` needs about a state with room for `k` more slashings (proposer, active count, `RegU64`, C02's exit-queue
+budget `qmax + farCount ≤ C`, a bound `Bm` on effective balances with `k·Bm` of headroom in the slashings vector and
+`2k·Bm` in the balances); one accepted slashing takes `SlashInv (k+1)` to `SlashInv k` (`SlashInv_step`). -/
+theorem attesterSlashing_eq (cfg : Config) (ctx : Ctx) (s : State) (op : AttesterSlashing) (p Bm C : Nat)
+    (hp : ctx.proposer = some p)
+    (hinv : SlashInv cfg s p ctx.activeCount Bm C cfg.MAX_VALIDATORS_PER_COMMITTEE s)
+    (hlen1 : op.attestation_1.attesting_indices.length ≤ cfg.MAX_VALIDATORS_PER_COMMITTEE)
+    (hlen2 : op.attestation_2.attesting_indices.length ≤ cfg.MAX_VALIDATORS_PER_COMMITTEE)
+    (hvl : s.validators.length ≤ marker)
+    (hq : cfg.CHURN_LIMIT_QUOTIENT ≠ 0)
+    (hz : cfg.EPOCHS_PER_SLASHINGS_VECTOR ≠ 0 ∧ min_slashing_penalty_quotient cfg s.fork ≠ 0 ∧
+          cfg.WHISTLEBLOWER_REWARD_QUOTIENT ≠ 0 ∧ cfg.PROPOSER_REWARD_QUOTIENT ≠ 0)
+    (hC : C + 1 + cfg.MIN_VALIDATOR_WITHDRAWABILITY_DELAY < 2 ^ 64)
+    (hepoch : s.slot / cfg.SLOTS_PER_EPOCH + cfg.EPOCHS_PER_SLASHINGS_VECTOR < 2 ^ 64)
+    (hBm : Bm * PROPOSER_WEIGHT < 2 ^ 64) :
+    processAttesterSlashing cfg ctx s op = toRes (Block.process_attester_slashing cfg s op) :=
+  BlockM.attesterSlashing_eq cfg ctx s op p Bm C hp hinv hlen1 hlen2 hvl hq hz hC hepoch hBm
+
+/-- `WF` under slashing: an accepted `slash_validator` of a slashable validator keeps the registry invariant `WF` of
+C02, its exit-queue budget `qmax + farCount ≤ C`, the list lengths and the slot — the parts of C02's `Q` that a slashing
+touches. -/
+theorem WF_preserved_slashing (cfg : Config) (st st' : State) (i p C : Nat) (v0 : Validator)
+    (hwf : Lemmas.WF st.validators)
+    (hb : Lemmas.qmax cfg (st.slot / cfg.SLOTS_PER_EPOCH) st.validators + Lemmas.farCount st.validators ≤ C)
+    (hC : C < FAR_FUTURE_EPOCH)
+    (hv0 : st.validators[i]? = some v0) (hsl : is_slashable_validator v0 (st.slot / cfg.SLOTS_PER_EPOCH) = true)
+    (hok : Block.slash_validator_pure cfg st i p = some st') :
+    Lemmas.WF st'.validators ∧
+    Lemmas.qmax cfg (st.slot / cfg.SLOTS_PER_EPOCH) st'.validators + Lemmas.farCount st'.validators ≤ C ∧
+    st'.validators.length = st.validators.length ∧ st'.balances.length = st.balances.length ∧ st'.slot = st.slot :=
+  BlockM.WF_slash cfg st st' i p C v0 hwf hb hC hv0 hsl hok
+
+/-- `processBlock_eq`, every fork: given the operation steps `OpSteps` for an invariant `Inv` (per operation kind:
+under `Inv` the model simulates the specification — proved, `sim_*` — and keeps `Inv`), `ProcessBlock` of the state's
+fork simulates `process_block`: whenever the specification accepts the block, the model accepts it with the same
+post-state; whenever the specification rejects it (`invalid`), the model rejects it; and the model never panics. The
+block must be a value of the block type (`check_types`: the per-element SSZ limits that zrnt enforces when decoding). -/
+theorem processBlock_eq {cfg : Config} {block : SignedBlock} {F : Fork} {Inv : Ctx → State → Prop}
+    (H : OpSteps cfg block F Inv) (ctx : Ctx) (st : State) (hi : Inv ctx st)
+    (htyped : Block.check_types cfg block = .ok ()) :
+    Sim (Block.process_block cfg st block) (processBlock cfg ctx st block) :=
+  BlockM.processBlock_sim H ctx st hi htyped
+
+/-- `M_block_refines_S_partial` — the C01 direction of `processBlock_eq` and of `postSlotTransition_eq`: for every
+block the specification accepts, the model accepts with the same post-state. FULL statement: the same for
+`Inv := ` "reachable, `ctx = ctxOf cfg st`" without the premise `OpSteps`; missing for that: the preservation halves of
+`OpSteps` for one invariant implying every operation's hypotheses (see the file header). -/
+theorem M_block_refines_S_partial {cfg : Config} {block : SignedBlock} {F : Fork} {Inv : Ctx → State → Prop}
+    (H : OpSteps cfg block F Inv) (ctx : Ctx) (st : State) (hi : Inv ctx st)
+    (htyped : Block.check_types cfg block = .ok ()) (r : Bytes) (hroot : block.o_post_root = some r) :
+    (∀ post, Block.process_block cfg st block = .ok post → processBlock cfg ctx st block = .ok post) ∧
+    (∀ post, Block.state_transition_post_slots cfg st block = .ok post → postSlotTransition cfg ctx st block = .ok post) :=
+  ⟨(BlockM.processBlock_sim H ctx st hi htyped).1.1, (BlockM.postSlot_sim H ctx st hi htyped r hroot).1.1⟩
+
+/-- `postSlotTransition_eq`: block signature (proposer key, oracle Boolean), `process_block`, state-root check —
+`common.PostSlotTransition` with result validation simulates `state_transition` after `process_slots`. -/
+theorem postSlotTransition_eq {cfg : Config} {block : SignedBlock} {F : Fork} {Inv : Ctx → State → Prop}
+    (H : OpSteps cfg block F Inv) (ctx : Ctx) (st : State) (hi : Inv ctx st)
+    (htyped : Block.check_types cfg block = .ok ()) (r : Bytes) (hroot : block.o_post_root = some r) :
+    Sim (Block.state_transition_post_slots cfg st block) (postSlotTransition cfg ctx st block) :=
+  BlockM.postSlot_sim H ctx st hi htyped r hroot
+
+/-- `stateTransition_eq` — `process_slots; verify signature; process_block; state-root check`: the code's
+`ProcessSlots` (C02's model `Impl.processSlots`, one `SlotInputs` per slot) followed by `PostSlotTransition` simulates
+the specification's `process_slots` (pure form) followed by `state_transition_post_slots`. The slots part is C02's
+FULL `processSlots_eq` under its invariant `Q` for the pre-state; the block part needs `Inv` for the state the slots
+reach, with the context of that state. -/
+theorem stateTransition_eq {cfg : Config} {block : SignedBlock} {F : Fork} {Inv : Ctx → State → Prop}
+    (H : OpSteps cfg block F Inv) (inps : List SlotInputs) (s : State) (C N : Nat) (ctx : Ctx)
+    (hspe : 0 < cfg.SLOTS_PER_EPOCH) (hQ : Lemmas.Q cfg C N (get_current_epoch cfg s) s)
+    (hbound : C + inps.length + N + 1 < FAR_FUTURE_EPOCH)
+    (hi : Inv ctx (process_slots_pure cfg inps s))
+    (htyped : Block.check_types cfg block = .ok ()) (r : Bytes) (hroot : block.o_post_root = some r) :
+    Sim (Block.state_transition_post_slots cfg (process_slots_pure cfg inps s) block)
+      (postSlotTransition cfg ctx (Impl.processSlots cfg inps s) block) := by
+  rw [Zrnt.Proofs.C02.processSlots_eq cfg inps s C N hspe hQ hbound]
+  exact BlockM.postSlot_sim H ctx _ hi htyped r hroot
 
 end Zrnt.Proofs.C01
